@@ -380,6 +380,45 @@ func main() {
 				}
 			}
 		}
+		// (4b) texts that do not decode, of every length: whatever the decoder does with a rejected text (quote it,
+		// shorten it, hash it) happens for each size once
+		if r.Want("lengths") {
+			var k keyid.KeyID
+			k = keyid.KeyID{IsHWKey: true, TouchPolicy: keyid.TouchPolicy(1)}
+			setInt(&k.Version, 1)
+			valid := rawJSON(&k)
+			idx := 0
+			for n := 0; n <= r.Pick(600, 5000); n++ {
+				pad := func(head, fill, tail string) string {
+					if len(head)+len(tail) > n {
+						return ""
+					}
+					return head + strings.Repeat(fill, (n-len(head)-len(tail))/len(fill)) + tail
+				}
+				texts := []string{
+					strings.Repeat("x", n),
+					pad(`{"ver":1,"note":"`, "a", ""),
+					pad(`{"ver":1,"note":"`, "a", `"`),
+					pad(`"`, "b", `"`),
+					pad(`[`, " ", `]`),
+					pad(valid, " ", "x"),
+					pad(`{"ver":"`, "é", `"}`),
+					pad("", "\xff", ""),
+				}
+				if n < len(valid) {
+					texts = append(texts, valid[:n])
+				}
+				for _, t := range texts {
+					c := r.Case("lengths", idx)
+					idx++
+					if c == nil || (t == "" && n != 0) {
+						continue
+					}
+					checkDecode(r, c, t, "undecodable-of-length")
+				}
+			}
+			r.Extra("lengths_texts", idx)
+		}
 		// (5) random bytes and mutations
 		if r.Want("fuzz") {
 			n := r.Pick(20000, 500000)
